@@ -597,6 +597,7 @@ package ech
 //@   callsite "r.resolveOne(ctx, want, \"HTTPS\")" requires[F:alias-chain-bounded] len(seen) <= 4 && seen[want] && (len(seen) == 1 ==> want == svcbName)
 //@   callsite "r.resolveOne(ctx, want, \"A\")" requires[F:address-name] want != svcbName || want == name
 //@   ensures[F:bounded-queries] reqcount(0) <= old(reqcount(0)) + 4 + 2*len(result.HTTPS) + 2
+//@   check[F:nxdomain-is-absence] len(https) >= 0 && err != nil ==> !errIs(err, ErrNonExistentDomain)
 //@   ensures[F:by-priority] err == nil ==> forall(i, 0, len(result.HTTPS), forall(k, i, len(result.HTTPS), int(result.HTTPS[i].Priority) <= int(result.HTTPS[k].Priority)))
 //@   loop 1 "range strings.Split(name"
 //@     invariant forall(t, 0, ri1, len(rx1[t]) <= 63, trig(rx1[t]))
